@@ -124,7 +124,7 @@ impl Property for C19 {
             Phase::Enumerate { name: "all-token-strings", total: total_strings(maxlen), exhaustive: true, gen: Arc::new(move |i| token_string(i, maxlen).map(C19Case)) },
             Phase::Random {
                 name: "grammar-with-faults",
-                cases: tier.pick(200_000, 4_000_000),
+                cases: tier.pick(600_000, 4_000_000),
                 strat: Arc::new(|| {
                     let name = || prop_oneof![6 => proptest::sample::select(caps::CAP_NAMES.to_vec()).prop_map(|s| s.to_string()), 2 => proptest::sample::select(caps::CAP_NAMES.to_vec()).prop_map(|s| s.to_uppercase()), 1 => Just("all".to_string()), 1 => Just("cap_nope".to_string()), 1 => Just(String::new())];
                     let group = || ("[=+-]", "[eip]{0,3}").prop_map(|(o, f)| format!("{o}{f}"));
@@ -137,6 +137,36 @@ impl Property for C19 {
                                 while !s.is_char_boundary(at) {
                                     at -= 1;
                                 }
+                                s.insert_str(at, f);
+                            }
+                            C19Case(s)
+                        })
+                        .boxed()
+                }),
+            },
+            // long texts: name lists of up to 200 names (with repeats, all known names, mixed
+            // case), up to 12 clauses, up to 6 operator groups per clause - kilobytes of
+            // well-formed text, with at most one injected fault
+            Phase::Random {
+                name: "long-lists",
+                cases: tier.pick(40_000, 1_000_000),
+                strat: Arc::new(|| {
+                    let name = || prop_oneof![10 => proptest::sample::select(caps::CAP_NAMES.to_vec()).prop_map(|s| s.to_string()), 2 => proptest::sample::select(caps::CAP_NAMES.to_vec()).prop_map(|s| s.to_uppercase())];
+                    let names = prop_oneof![
+                        3 => proptest::collection::vec(name(), 1..200),
+                        1 => (proptest::collection::vec(name(), 0..60), any::<bool>()).prop_map(|(extra, front)| {
+                            let mut all: Vec<String> = caps::CAP_NAMES.iter().map(|s| s.to_string()).collect();
+                            if front { let mut e = extra; e.extend(all); e } else { all.extend(extra); all }
+                        }),
+                        1 => (name(), 1usize..200).prop_map(|(n, k)| vec![n; k]),
+                    ];
+                    let group = || ("[=+-]", "[eip]{0,3}").prop_map(|(o, f)| format!("{o}{f}"));
+                    let clause = (names, proptest::collection::vec(group(), 1..6)).prop_map(|(n, g)| format!("{}{}", n.join(","), g.concat()));
+                    (proptest::collection::vec(clause, 1..12), proptest::option::weighted(0.3, (any::<u16>(), prop_oneof![Just("+"), Just("="), Just("x"), Just(","), Just(" ")])))
+                        .prop_map(|(clauses, fault)| {
+                            let mut s = clauses.join(" ");
+                            if let Some((pos, f)) = fault {
+                                let at = (pos as usize * (s.len() + 1)) >> 16;
                                 s.insert_str(at, f);
                             }
                             C19Case(s)
